@@ -88,6 +88,11 @@ func registerIOIntrinsics(reg func(string, intrinsic), used func(string, intrins
 		return unitFloat(m, "rand.Float64")
 	}))
 	normFloat := func(m *Machine, fr *frame, a []value) value {
+		if m.h.Params["concreteRand"] == 1 {
+			m.randCount++
+			x := float64(m.randCount) * 0.6180339887498949
+			return 4*(x-float64(int(x))) - 2.03125
+		}
 		t := m.newInput("rand.NormFloat64", "f64", m.floatSort(64))
 		if m.mode == ModeFP {
 			m.addPC(m.tt.Not(m.tt.App("fp.isNaN", sortBool, t)))
